@@ -51,7 +51,7 @@ func itoIndexArray[V indexValueT](p *Process, params []string, v []V, marshaller
 		if i < 0 {
 			i += len(v)
 		}
-		if i >= len(v) {
+		if i < 0 || i >= len(v) {
 			return fmt.Errorf("key '%s' greater than number of items in array", key)
 		}
 
